@@ -10,6 +10,7 @@ import Verif.Model.ExprParser
 import Verif.Model.Value
 import Verif.Model.Funcs
 import Verif.Model.Calc
+import Verif.Model.Pipeline
 import Verif.Model.Mustache
 import Verif.Model.Variant
 import Verif.Model.VariantHeap
@@ -423,7 +424,7 @@ def decConst (p : String) : V := (decV p).getD .null
 
 /-- `run`, except that the comparison is abandoned (host result) as soon as a host-dependent
 value reaches the stack: what follows would depend on a value the model does not know -/
-def runH (env : EvalEnv String V) : List (ETok String) → List V → Out V
+def runH {κ : Type} (env : EvalEnv κ V) : List (ETok κ) → List V → Out V
   | [], [v] => .ok v
   | [], _ => .err "INTERNAL"
   | t :: ts, st =>
@@ -446,6 +447,54 @@ def doEval (args : List String) : String :=
       | _ => none
     if toks.length != toksS.length || vars.length != varsS.length then "bad-op"
     else encOut (runH (calcEnv (parseMgr m) decConst vars) toks [])
+  | _ => "bad-op"
+
+/-! ### the text pipeline: `lit <runes>` (numeric constant), `lex <runes>` (initial tokens of
+ParseString), `calc <mgr> <runes> ; <name>=<value>*` (SetExpression + EvaluateUsingVariables) -/
+
+def doLit (args : List String) : String :=
+  match args with
+  | [v] =>
+    let r := parseRunes v
+    if r.all isDigitR && !r.isEmpty then
+      match decodeInt r with
+      | some i => s!"i{i.toInt}"
+      | none => "range"
+    else match decodeFloat32 r with
+      | some b => "f" ++ toHex 8 b.toNat
+      | none => "range"
+  | _ => "bad-op"
+
+def showETokV (t : ETok V) : String :=
+  match t.typ with
+  | .variable => s!"35:{showRunes t.name}"
+  | .function => s!"34:{showRunes t.name}"
+  | .constant => match t.cst with
+    | some v => s!"36:{encV v}"
+    | none => s!"36:i{t.argc}"
+  | ty => toString ty.toNat
+
+def doLex (args : List String) : String :=
+  match args with
+  | [v] =>
+    match lexAnalysis (tokenizeExpression (parseRunes v)) with
+    | .error e => s!"err {e.code}"
+    | .ok ts => if ts.isEmpty then "ok -" else "ok " ++ " ".intercalate (ts.map showETokV)
+  | _ => "bad-op"
+
+def doCalc (args : List String) : String :=
+  match args with
+  | m :: text :: rest =>
+    let varsS := (rest.dropWhile (· != ";")).drop 1
+    let vars := varsS.filterMap fun b =>
+      match b.splitOn "=" with
+      | [n, v] => (decV v).map fun vv => (parseRunes n, vv)
+      | _ => none
+    if vars.length != varsS.length then "bad-op"
+    else match parseString (parseRunes text) with
+      | .lexErr e => s!"parse-err {e.code}"
+      | .synErr e => s!"parse-err {e.code}"
+      | .ok prog _ => encOut (runH (textEnv (parseMgr m) vars) prog [])
   | _ => "bad-op"
 
 /-- `coll <op>*`: a:<name> add, f:<name> find index, l:<name> locate, r:<idx> remove, n:<name>
@@ -613,6 +662,9 @@ def handle (line : String) : String :=
   | "conv" :: args => doConv args
   | "fn" :: args => doFn args
   | "eval" :: args => doEval args
+  | "lit" :: args => doLit args
+  | "lex" :: args => doLex args
+  | "calc" :: args => doCalc args
   | "coll" :: args => doColl args
   | "tplparse" :: args => doTplParse args
   | "var" :: args => doVar args
